@@ -45,8 +45,8 @@ NOT_APPLICABLE = {
 PROPS["C30"] = dict(
     explanation="Bounded symbolic execution of the real io.TimeToIndex, IndexToTime, IndexToOffset, FileSize/nanosecondsInYear and, underneath them, the standard library's time.Date, absDate, daysSinceEpoch, Time.In/Year/YearDay/AddDate/Unix and zone lookup executed from their own SSA, with the timestamp (seconds 2000-2040 and nanoseconds) as symbolic variables; every assertion is decided by z3 for all instants at once per timeframe and zone.",
     runs=[dict(pkg="utils/io", files=["c30_index.go"], entries=["VerifC30Index", "VerifC30Distinct"], must_reach=["entered"], opts=dict(timeout=60))],
-    bounds=["every timeframe of utils.Timeframes (1Sec..1D)", "every instant 2000-01-01..2040-12-31 at nanosecond precision (symbolic)", "record length 16..4096 (symbolic)",
-            "configured zone UTC and UTC+5 (thorough: also UTC-8 and UTC+5:30)", "second instant up to 2 days later, same local year"],
+    bounds=["every timeframe of utils.Timeframes (1Sec..1D)", "every instant (nanosecond precision, symbolic) of the years 2000, 2019, 2020, 2021, 2037, 2038 plus one day either side (thorough: every year 2000..2040); the local calendar year is case-split", "record length 16..4096 (symbolic)",
+            "configured zone UTC and UTC+5 (thorough: also UTC-8 and UTC+5:30)", "second instant up to 3 intervals later, same local year"],
     outside=["zones with daylight-saving transitions (tzdata-driven zone tables are not modelled; fixed offsets only)", "time.Local other than UTC", "years outside 2000..2040"],
     stubs=["time.Time bit packing: semantic model (see C10)", "(*time.Location).get: time.Local = UTC"],
     assumptions=COMMON_ASSUME + ["the process-local zone (time.Local, used by FileSize) is UTC"],
